@@ -56,7 +56,7 @@ def cases(run: Run):
         if e - s < 0.25:
             e = s + 0.5
         thrust = rng.choice(["eci", "ntw", "spiral", "plane"])
-        c = {"dt": dt, "N": N, "s": s, "e": e, "kind": kind, "thrust": thrust, "model": rng.choice(["sp", "sp", "two_body"]),
+        c = {"mag": rng.choice([2e-5, 1e-5, 3e-5, 2.5e-5]), "mag2": rng.choice([2e-5, 1.5e-5, 4e-5]), "dt": dt, "N": N, "s": s, "e": e, "kind": kind, "thrust": thrust, "model": rng.choice(["sp", "sp", "two_body"]),
              "orbit": rng.choice(["leo", "geo"]), "late": rng.choice([0, 0, 0, 432000, 1728000])}
         # a second burn of the same agent, starting in the step in which the first one ends (so both are queued for that step) or later
         if rng.random() < 0.35 and e + 2.0 < span - 2.0:
@@ -92,6 +92,37 @@ def make_dynamics(model):
                                 PerturbationsConfig(third_bodies=[], solar_radiation_pressure=False, general_relativity=False), 0.02)
 
 
+def thrust_spec(c, which):
+    """the thrust as configured: kind, and the vector / magnitude handed to the data event (they vary from case to case)"""
+    kind = c["thrust"] if which == 0 else c["thrust2"]
+    mag = float(c.get("mag" if which == 0 else "mag2", 2e-5))
+    if kind == "eci":
+        return kind, [0.0, mag, 0.5 * mag]
+    if kind == "ntw":
+        return kind, [0.25 * mag, mag, 0.5 * mag] if c.get("ntw_full", True) else [0.0, mag, 0.0]
+    return kind, mag
+
+
+def own_thrust(kind, val):
+    """the acceleration of the configured thrust at a state, from its documented definition (nothing of the code under test):
+    NTW axes: T along the velocity, W along the angular momentum, N = T x W; a spiral thrust is along T, a plane-change thrust along +-W
+    (the sign of the z coordinate)"""
+    def acc(y):
+        r, v = np.asarray(y[:3], float), np.asarray(y[3:6], float)
+        t_hat = v / np.linalg.norm(v)
+        w_hat = np.cross(r, v) / np.linalg.norm(np.cross(r, v))
+        n_hat = np.cross(t_hat, w_hat)
+        if kind == "eci":
+            return np.array(val, float)
+        if kind == "ntw":
+            return val[0] * n_hat + val[1] * t_hat + val[2] * w_hat
+        if kind == "spiral":
+            return val * t_hat
+        return (val if r[2] >= 0 else -val) * w_hat
+
+    return acc
+
+
 def thrust_func(kind):
     from resonaate.dynamics.integration_events.finite_thrust import eciBurn, ntwBurn, planeChangeThrust, spiralThrust
 
@@ -118,12 +149,9 @@ def impl_run(c):
     from scipy.integrate import solve_ivp
 
     dt, N, s, e = c["dt"], c["N"], c["s"] + c["late"], c["e"] + c["late"]
-    f, cls = thrust_func(c["thrust"])
-    Ev = ScheduledFiniteBurn if cls == "burn" else ScheduledFiniteManeuver
-    burns = [(s, e, f, Ev)]
+    burns = [(s, e, own_thrust(*thrust_spec(c, 0)), thrust_spec(c, 0))]
     if "s2" in c:
-        f2, cls2 = thrust_func(c["thrust2"])
-        burns.append((c["s2"] + c["late"], c["e2"] + c["late"], f2, ScheduledFiniteBurn if cls2 == "burn" else ScheduledFiniteManeuver))
+        burns.append((c["s2"] + c["late"], c["e2"] + c["late"], own_thrust(*thrust_spec(c, 1)), thrust_spec(c, 1)))
     if c.get("queue") == "rev":
         burns.reverse()  # the later burn is queued first
     dyn = make_dynamics(c["model"])
@@ -136,21 +164,16 @@ def impl_run(c):
     agent = SimpleNamespace(propagate_event_queue=[], _time=ScenarioTime(float(c["late"])), time=ScenarioTime(float(c["late"])), simulation_id=10001,
                             julian_date_start=datetimeToJulianDate(START))
     agent.appendPropagateEvent = lambda ev: Agent.appendPropagateEvent(agent, ev)
-    kinds = [c["thrust"]] + ([c["thrust2"]] if "s2" in c else [])
-    if c.get("queue") == "rev":
-        kinds.reverse()
-
-    def data_event(bs, be, kind):
+    def data_event(bs, be, spec):
+        kind, val = spec
         """the database row of the burn, as the scenario configuration creates it; the real handleEvent turns it into the propagator's event"""
         a, b = datetimeToJulianDate(START + timedelta(seconds=bs)), datetimeToJulianDate(START + timedelta(seconds=be))
         base = dict(scope="agent_propagation", scope_instance_id=10001, start_time_jd=float(a), end_time_jd=float(b), planned=False)
-        if kind == "eci":
-            return ScheduledFiniteBurnEvent(event_type="finite_burn", acc_vec_0=0.0, acc_vec_1=2e-5, acc_vec_2=1e-5, thrust_frame="eci", **base)
-        if kind == "ntw":
-            return ScheduledFiniteBurnEvent(event_type="finite_burn", acc_vec_0=0.0, acc_vec_1=2e-5, acc_vec_2=0.0, thrust_frame="ntw", **base)
-        return ScheduledFiniteManeuverEvent(event_type="finite_maneuver", maneuver_mag=2e-5, maneuver_type="spiral" if kind == "spiral" else "plane_change", **base)
+        if kind in ("eci", "ntw"):
+            return ScheduledFiniteBurnEvent(event_type="finite_burn", acc_vec_0=val[0], acc_vec_1=val[1], acc_vec_2=val[2], thrust_frame=kind, **base)
+        return ScheduledFiniteManeuverEvent(event_type="finite_maneuver", maneuver_mag=val, maneuver_type="spiral" if kind == "spiral" else "plane_change", **base)
 
-    rows = [data_event(b[0], b[1], kd) for b, kd in zip(burns, kinds)]
+    rows = [data_event(b[0], b[1], b[3]) for b in burns]
     seen_times = {}
     x = x0_of(c["orbit"]).copy()
     xb0 = x0_of(c["orbit"]).copy() * np.array([1.0, 1.0, 1.0, 1.0, 1.0, -1.0])
@@ -212,8 +235,14 @@ def impl_run(c):
         if bs > t_now:
             y = ref.propagate(ScenarioTime(t_now), ScenarioTime(bs), y)
         bs = max(bs, t_now)  # a burn under way at the start of the run thrusts from the start
-        ref.finite_thrust = bf
-        sol = solve_ivp(partial(ref._differentialEquation, check_collision=False), (bs, be), y, method="RK45", rtol=ref.RELATIVE_TOL, atol=ref.ABSOLUTE_TOL)
+        ref.finite_thrust = None
+
+        def rhs(t, yy, bf=bf):
+            d = np.array(ref._differentialEquation(t, yy, check_collision=False), dtype=float)
+            d[3:6] += bf(yy)  # the natural forces of the model plus the configured thrust, evaluated here
+            return d
+
+        sol = solve_ivp(rhs, (bs, be), y, method="RK45", rtol=ref.RELATIVE_TOL, atol=ref.ABSOLUTE_TOL)
         y = sol.y[:, -1]
         ref.finite_thrust = None
         t_now = be
